@@ -101,10 +101,12 @@ class Boom(RuntimeError):
     pass
 
 
-def build(dirpath, mode, seed, kill=None, old=False, boom_at=None, drain=False):
+def build(dirpath, mode, seed, kill=None, old=False, boom_at=None, drain=False, handle_mode=None):
     """GrandCanonical run writing log / trajectory / restart through instrumented handles on real files.
     old: the log and trajectory paths already hold the output of an earlier simulation ('a' mode appends to it);
-    boom_at: a user-supplied log column (not the first one) raises at its boom_at-th evaluation"""
+    boom_at: a user-supplied log column (not the first one) raises at its boom_at-th evaluation;
+    handle_mode: the mode in which the USER opened the handles, when it differs from the driver's logging_mode (an open
+    handle is the user's: the driver's mode says how quansino opens PATHS, it gives no licence to empty a handle)"""
     from quansino.mc.gcmc import GrandCanonical
     from quansino.moves.displacement import DisplacementMove
     from quansino.moves.exchange import ExchangeMove
@@ -119,7 +121,7 @@ def build(dirpath, mode, seed, kill=None, old=False, boom_at=None, drain=False):
         if old and kind != "restart":
             with open(os.path.join(dirpath, f"{kind}.out"), "w") as fh:
                 fh.write(OLD_LOG if kind == "log" else OLD_TRAJ)
-        real = open(os.path.join(dirpath, f"{kind}.out"), mode + ("+" if kind == "restart" else ""))  # noqa: SIM115
+        real = open(os.path.join(dirpath, f"{kind}.out"), (handle_mode or mode) + ("+" if kind == "restart" else ""))  # noqa: SIM115
         files[kind] = RecFile(real, kill_at=kill[1] if kill and kill[0] == kind else None)
     mc = GrandCanonical(atoms, exchange_atoms=Atoms("Cu", positions=[[0, 0, 0]]), temperature=3000.0, chemical_potential=-5.2 if drain else -3.7, number_of_exchange_particles=n0, max_cycles=2,
                         seed=seed, logfile=files["log"], trajectory=files["traj"], restart_file=files["restart"], logging_interval=1, logging_mode=mode)
@@ -774,14 +776,18 @@ def run(tier: str) -> int:
                     rep.sample({"mode": mode, "seed": seed, "restart_document_sizes": sizes, "log_ops_head": [o[0] for o in files["log"].ops[:10]], "restart_ops_head": [o[0] for o in files["restart"].ops[:10]]})
         # ---- further histories: a path that already holds an earlier simulation's output ('a' mode), and an observer
         # call that fails (a user-supplied log column raises once, the user carries on) --------------------------------
-        for hi, (mode, has_old, boom) in enumerate((("a", True, None), ("a", False, 4), ("w", False, 3), ("a", True, 6), ("w", False, 2), ("a", False, "drain"), ("w", False, "drain"))):
+        for hi, (mode, has_old, boom) in enumerate((("a", True, None), ("a", False, 4), ("w", False, 3), ("a", True, 6), ("w", False, 2), ("a", False, "drain"), ("w", False, "drain"), ("w@a", True, None), ("w@a", True, 5))):
+            # "w@a": handles the user opened for appending (they hold an earlier simulation's output) given to a driver
+            # whose logging_mode is 'w'
+            qmode = mode.split("@")[0]
+            mode = mode.split("@")[-1]
             d = os.path.join(tmp, f"hist_{hi}")
             os.makedirs(d)
             seed = rep.seed % 1000 + 301 + hi
             drain = boom == "drain"
             if drain:
                 boom = None
-            mc, files = build(d, mode, seed, old=has_old, boom_at=boom, drain=drain)
+            mc, files = build(d, qmode, seed, old=has_old, boom_at=boom, drain=drain, handle_mode=mode)
             try:
                 saved_ = drive(mc, files, steps * (3 if drain else 1))
                 if drain and not any(nat == 0 for _, nat in saved_):
@@ -796,11 +802,11 @@ def run(tier: str) -> int:
                     pass
             for kind, f in files.items():
                 old_text = (OLD_LOG if kind == "log" else OLD_TRAJ) if (has_old and kind != "restart") else ""
-                tag = kind + (":old-content" if has_old else "") + (":failing-column" if boom else "")
+                tag = kind + (":old-content" if has_old else "") + (":failing-column" if boom else "") + (":driver-mode-w" if qmode != mode else "")
                 nops += len(f.ops)
                 ncrash += analyse(rep, kind, mode, f.ops, tag, old_text)
                 recs.append(tla_trace(kind, mode, f.ops, old_text))
-                rep.count((kind, mode, "old" if has_old else "", "boom" if boom else ""))
+                rep.count((kind, mode, qmode, "old" if has_old else "", "boom" if boom else ""))
                 on_disk = open(os.path.join(d, f"{kind}.out")).read()
                 m = Model(mode, old_text)
                 for o in f.ops:
